@@ -223,6 +223,43 @@ pub fn c07_claims(m: &mut Mon, ctx: &StepCtx, stats: &mut Stats, out: &mut Vec<V
             .collect();
         viol(out, "C07", "requests_equal_ledger", ctx.idx, "hub.UnbondRequests:ledger_mismatch", diff.join("; "));
     }
+    // 4b. AllHistory reports every closed batch whatever the page size: read again in small
+    // pages (cursor = last id of the previous page) and compare with the single large page
+    if post.history.len() != pre.history.len() || ctx.idx % 8 == 0 {
+        use basset::hub::{AllHistoryResponse, QueryMsg as HubQ};
+        let page = 1 + (ctx.idx as u32 % 4);
+        let mut paged: Vec<u64> = vec![];
+        let mut start: Option<u64> = None;
+        let mut err = None;
+        for _ in 0..(post.history.len() + 2) {
+            match crate::wasm::query_typed::<_, AllHistoryResponse>(ctx.post_w, HUB, &HubQ::AllHistory { start_from: start, limit: Some(page) }) {
+                Ok(r) => {
+                    if r.history.is_empty() {
+                        break;
+                    }
+                    if r.history.len() > page as usize {
+                        viol(out, "C07", "history_pages_respect_limit", ctx.idx, "hub.AllHistory:page_too_long", format!("limit {} returned {} entries", page, r.history.len()));
+                    }
+                    start = r.history.last().map(|h| h.batch_id);
+                    paged.extend(r.history.iter().map(|h| h.batch_id));
+                }
+                Err(e) => {
+                    err = Some(e);
+                    break;
+                }
+            }
+        }
+        stats.check("c07_history_paging");
+        let whole: Vec<u64> = post.history.iter().map(|h| h.batch_id).collect();
+        if let Some(e) = err {
+            viol(out, "C07", "history_query_works", ctx.idx, "hub.AllHistory:failed", format!("AllHistory(start {:?}, limit {}) failed: {}", start, page, e));
+        } else if paged != whole {
+            viol(out, "C07", "history_pages_report_every_batch", ctx.idx, "hub.AllHistory:paging", format!("AllHistory read in pages of {} gives batches {:?}, read in one page {:?} (current batch {})", page, paged, whole, post.batch.id));
+        }
+        if whole.len() as u64 + 1 != post.batch.id {
+            viol(out, "C07", "history_pages_report_every_batch", ctx.idx, "hub.AllHistory:incomplete", format!("AllHistory reports {} closed batches but the current batch is {}", whole.len(), post.batch.id));
+        }
+    }
     // 2. per batch sums
     let mut sums: BTreeMap<u64, (u128, u128)> = BTreeMap::new();
     for ((_, b), v) in &post_req {
@@ -408,6 +445,9 @@ pub fn c01_withdraw(m: &mut Mon, ctx: &StepCtx, stats: &mut Stats, out: &mut Vec
         if v >= 1 {
             let sig = if err.contains("insufficient funds") { "hub.WithdrawUnbonded:must_succeed:insufficient_funds" } else { "hub.WithdrawUnbonded:must_succeed" };
             viol(out, "C01", "withdraw_of_matured_claim_succeeds", ctx.idx, sig, format!("{} holds released claims worth {} but WithdrawUnbonded failed: {}", signer, v, err));
+            // the same event is C09's "once the unbonding period has passed the holder's
+            // WithdrawUnbonded succeeds whenever its claim is worth at least one base unit"
+            viol(out, "C09", "matured_claim_is_withdrawable", ctx.idx, sig, format!("{} holds released claims worth {} but WithdrawUnbonded failed: {}", signer, v, err));
         } else {
             // due but not yet released: would the claim be worth >= 1 once released?
             let now = ctx.pre_w.time;
@@ -479,6 +519,22 @@ pub fn c08_lifecycle(m: &mut Mon, ctx: &StepCtx, stats: &mut Stats, out: &mut Ve
         _ => return,
     };
     let now = ctx.post_w.time;
+    // the unbonding period in force (model): what the deployment was instantiated with,
+    // changed only by a committed UpdateParams naming the field
+    if m.unbonding_model.is_none() {
+        m.unbonding_model = Some(pre.params.unbonding_period);
+    }
+    if ctx.committed() {
+        if let Some((HUB, "update_params")) = ctx.top() {
+            if let Some(x) = ctx.tx.and_then(|t| t.msg.get("update_params")).and_then(|b| b.get("unbonding_period")).and_then(|v| v.as_u64()) {
+                m.unbonding_model = Some(x);
+            }
+        }
+    }
+    let up = m.unbonding_model.unwrap_or(pre.params.unbonding_period);
+    if post.params.unbonding_period != up {
+        stats.probe("c08_stored_unbonding_period_differs_from_model");
+    }
     // 2. ids consecutive, current = last + 1
     for (i, h) in post.history.iter().enumerate() {
         if h.batch_id != i as u64 + 1 {
@@ -540,6 +596,9 @@ pub fn c08_lifecycle(m: &mut Mon, ctx: &StepCtx, stats: &mut Stats, out: &mut Ve
     }
     // 3. released entries immutable, order, last_processed monotone
     for h in &post.history {
+        if h.released && !m.released_snap.contains_key(&h.batch_id) && now < h.time + up {
+            viol(out, "C08", "no_release_before_unbonding_period", ctx.idx, "hub.process_withdraw_rate:early_release", format!("batch {} undelegated at {} was released (withdraw rates frozen) at {} (unbonding period {}, hub stores {})", h.batch_id, h.time, now, up, post.params.unbonding_period));
+        }
         if let Some(old) = m.released_snap.get(&h.batch_id) {
             if old != h {
                 viol(out, "C08", "released_batch_immutable", ctx.idx, "hub.AllHistory:released_changed", format!("released batch {} changed from {:?} to {:?}", h.batch_id, old, h));
@@ -581,10 +640,10 @@ pub fn c08_lifecycle(m: &mut Mon, ctx: &StepCtx, stats: &mut Stats, out: &mut Ve
                     let t0 = m.undelegated.get(&r.0).map(|x| x.0).or_else(|| post.history.iter().find(|h| h.batch_id == r.0).map(|h| h.time));
                     match t0 {
                         Some(t0) => {
-                            if now < t0 + pre.params.unbonding_period {
-                                viol(out, "C08", "no_payout_before_unbonding_period", ctx.idx, "hub.WithdrawUnbonded:early", format!("batch {} undelegated at {} paid at {} (unbonding period {})", r.0, t0, now, pre.params.unbonding_period));
+                            if now < t0 + up {
+                                viol(out, "C08", "no_payout_before_unbonding_period", ctx.idx, "hub.WithdrawUnbonded:early", format!("batch {} undelegated at {} paid at {} (unbonding period {}, hub stores {})", r.0, t0, now, up, pre.params.unbonding_period));
                             }
-                            if now == t0 + pre.params.unbonding_period {
+                            if now == t0 + up {
                                 stats.probe("c08_release_on_exact_boundary_second");
                             }
                         }
@@ -597,7 +656,7 @@ pub fn c08_lifecycle(m: &mut Mon, ctx: &StepCtx, stats: &mut Stats, out: &mut Ve
         // probe: a withdraw one second early
         let signer = ctx.tx.map(|t| t.sender.clone()).unwrap_or_default();
         if let Some(rs) = pre.requests.get(&signer) {
-            if rs.iter().any(|r| pre.history.iter().any(|h| h.batch_id == r.0 && !h.released && h.time + pre.params.unbonding_period == now + 1)) {
+            if rs.iter().any(|r| pre.history.iter().any(|h| h.batch_id == r.0 && !h.released && h.time + up == now + 1)) {
                 stats.probe("c08_withdraw_one_second_early");
             }
         }
